@@ -13,7 +13,7 @@ TECHNIQUE = ('runtime monitoring against an executable trace model: the real can
              'that the model separates the decompositions the property forbids')
 RULE = ('Properties: every scope kind x pattern kind x widths 1-3 in the non-activator positions over topics {a,b,c,d}, '
         'predicates over one payload field x in {0,1} (none, x = 0, x = 1, x = @Alias.x), aliases, time bounds in '
-        '{none, 1 s, 2 s}; activator never a disjunction. Traces: all timed sequences up to length L over the '
+        '{none, 0 s, 1 s, 1500 ms, 2 s}; activator never a disjunction. Traces: all timed sequences up to length L over the '
         'topics of the property x payloads {0,1} x gaps {1,2} (L = 3 quick; L = 4 thorough, 5 for properties over '
         '<= 2 topics). evaluations = (property, trace, reading) triples; non-trivial = some width > 1 and the trace '
         'contains a split topic; distinct = (property shape, trace length, verdict). Exhaustive up to L.')
@@ -68,7 +68,7 @@ def make_property(rng, sk, pk, widths):
         # with distinct aliases per alternative that means: expose aliases of simple events only
         bound[pos] = mine if w == 1 else []
         events[pos] = alts[0] if w == 1 else ('disj', tuple(alts))
-    tb = gen.pick(rng, (None, None, ('1', 's'), ('2', 's')))
+    tb = gen.pick(rng, (None, None, ('1', 's'), ('2', 's'), ('1', 's'), ('2', 's'), ('0', 's'), ('1500', 'ms')))
     return gen.assemble(sk, pk, events, tb)
 
 
